@@ -342,6 +342,14 @@ func fzCorpus() []*fzCase {
 		c.group = "corpus/typecast"
 		out = append(out, c)
 	}
+	// a package doc comment made only of lines the tool strips (//go:generate, //go:build convergen)
+	for name, sub := range map[string][2]string{
+		"generate-line": {"package sc\n", "//go:generate go run github.com/reedom/convergen\npackage sc\n"},
+		"build-tag":     {"//go:build convergen\n\n", "//go:build convergen\n"},
+	} {
+		raw := strings.Replace(fzValidFile, sub[0], sub[1], 1)
+		out = append(out, &fzCase{class: "corpus/package-doc-only-" + name, group: "corpus/package-doc", raw: &raw})
+	}
 	// ":recv" with a Go keyword
 	for _, kw := range []string{"func", "type"} {
 		c := &fzCase{class: "corpus/recv-keyword-" + kw, group: "corpus/recv", positioned: true}
